@@ -143,6 +143,24 @@ def check_sdl(ctx: Ctx, job):
                 cont4 = [("error", type(e).__name__)]
             del l4
             gc.collect()
+        with vsched.Session(seed + 7) as s:
+            # the same dict loaded into a loader of the same configuration that has ALREADY ADVANCED (its dataset, sampler and
+            # iterator hold a different position): the continuation is the same again
+            torch.manual_seed(100)
+            l5 = sdl.build(cfg)
+            try:
+                it5 = iter(l5)
+                for _ in range(r.choice([1, 2, 3])):
+                    if sdl.take(it5, s)[0] != "item":
+                        break
+                s.begin_op()
+                l5.load_state_dict(sd)
+                del it5
+                cont5 = C01._consume(l5, len(stream) - p, s)
+            except Exception as e:
+                cont5 = [("error", type(e).__name__)]
+            del l5
+            gc.collect()
         if cfg["kind"] == "map_rng":
             # the worker seeds of LATER epochs come from the loading process' ambient RNG (a fresh base seed per
             # iterator), not from the checkpoint: only the resumed epoch is comparable
@@ -154,7 +172,11 @@ def check_sdl(ctx: Ctx, job):
                         break
                 return out
             conts = [_first_epoch(c) for c in conts]
-            cont3, cont4 = _first_epoch(cont3), _first_epoch(cont4)
+            cont3, cont4, cont5 = _first_epoch(cont3), _first_epoch(cont4), _first_epoch(cont5)
+        if cont5 != conts[0] and cfg.get("sampler") not in ("shuffle",):
+            d = C01._first_diff(cont5, conts[0])
+            ctx.fail("C08:load_into_advanced_loader_differs", job, f"the dict of position {p} loaded into a loader that had already delivered batches: +{d}: {cont5[d:d+3]} vs {conts[0][d:d+3]} when loaded into a fresh loader")
+            return
         if cont4 != conts[0] and cfg.get("sampler") not in ("shuffle",):
             d = C01._first_diff(cont4, conts[0])
             ctx.fail("C08:state_dict_after_load_perturbs", job, f"load (position {p}); state_dict(); iterate: +{d}: {cont4[d:d+3]} vs {conts[0][d:d+3]} without the state_dict() call")
@@ -323,12 +345,14 @@ def run(ctx: Ctx):
     from . import nodes_common as nc
     torch.set_num_threads(1)
     jobs = []
-    for i in range(ctx.n(60, 1200)):
+    for i in range(ctx.n(80, 1200)):
         cfg = sdl.gen_cfg(ctx.rng)
         if sdl.is_iter(cfg) and ctx.rng.random() < 0.3:
             cfg["kind"] = "iter_inplace"
         if not sdl.is_iter(cfg) and cfg["W"] > 0 and ctx.rng.random() < 0.4:
             cfg["kind"] = "map_rng"  # items drawn from the per-worker RNG: reloading must reproduce them
+        elif not sdl.is_iter(cfg) and ctx.rng.random() < 0.3:
+            cfg["kind"] = "map_falsy"  # dataset state that is falsy ({}) before the first fetch; items depend on the state
         jobs.append(("sdl", {"cfg": cfg, "seed": ctx.rng.randrange(1 << 30)}))
     for i in range(ctx.n(120, 2400)):
         if i % 4 == 0:
